@@ -46,6 +46,18 @@ def tag(p, skip=("ax is None", "plot_kwargs is None", "change_ticks")):
     return "[" + ", ".join(("" if c else "not ") + d[:40] for _k, c, d in p.decisions if d not in skip) + "]"
 
 
+def _range_over_rows(it, itv, PP):
+    """range(len(PP)) / range(0, len(PP)) / range(PP.shape[0]): one iteration per stored row, in order"""
+    from ..values import RangeV
+
+    if not isinstance(itv, RangeV) or len(itv.args) not in (1, 2):
+        return False
+    if len(itv.args) == 2 and it.to_nf(itv.args[0]):
+        return False
+    stop = it.to_nf(itv.args[-1])
+    return stop in (nf.fn("len", PP), nf.fn("[]", nf.fn("shape", PP), nf.const(0)), nf.fn("[]", nf.sym("reservoir.pseudopressure.shape"), nf.const(0)))
+
+
 def check(ctx):
     P = ctx.P
     ctx.assume(POSITIVE)
@@ -195,6 +207,13 @@ def check(ctx):
         if okl:
             itv = loops[0].data["iter"]
             if isinstance(itv, EnumV) and it.to_nf(itv.inner) == PP:
+                row = nf.fn("[]", PP, nf.sym(ivar)) if ivar else None
+                okl = sel is not None
+                if sel is False:
+                    ctx.check(not pl, "C20-b", q + ":skipped profiles " + tag(p), f.where(), "profiles whose index is not a multiple of `every` are not drawn", signature="extra profile")
+                    continue
+            elif _range_over_rows(it, itv, PP):
+                # for i in range(len(profiles)): p = profiles[i]  - the index loop over every stored row
                 row = nf.fn("[]", PP, nf.sym(ivar)) if ivar else None
                 okl = sel is not None
                 if sel is False:
